@@ -119,8 +119,8 @@ func TestMergeReplay(t *testing.T) {
 }
 
 func f6(x float64) int {
-	if math.IsNaN(x) || math.IsInf(x, 0) || math.Abs(x) > 2000 {
-		return -999999999
+	if math.IsNaN(x) || math.IsInf(x, 0) || math.Abs(x) > 1000 {
+		return -1000000000 // out of range: never equal to an expected value
 	}
 	return int(math.Round(x * 1e6))
 }
